@@ -19,6 +19,7 @@ from harness.framework import Outcome
 
 ID = "C11"
 TIE_MODULES = ["StathamModel.Tie"]
+PROOF_MODULES = ['StathamModel.Lemmas.ReachAdequate', 'StathamModel.Lemmas.TreeGraph']
 ASSUMPTIONS = ["class names are unique within a graph (documented assumption of the orderer)"]
 N_GRAPHS = {"quick": 600, "thorough": 20000}
 POSITIONS = ["property", "items", "tuple-items", "additionalItems", "contains", "patternProperties", "additionalProperties",
